@@ -81,10 +81,10 @@ func verifRows(n int) (Set, []int) {
 	return MustNewSet(ts...), ks
 }
 
-// verif:bound VerifC06Rank relations of 2..4 rows (id distinct, key k in [0,2], so ties below and above the minimum occur); rank by k
+// verif:bound VerifC06Rank relations of 2..4 (thorough: 2..5) rows (id distinct, key k in [0,2], so ties below and above the minimum occur); rank by k
 // verif:cover VerifC06Rank tie-above-min
 func VerifC06Rank() {
-	n := 2 + verifChoice(3)
+	n := 2 + verifChoice(verifWiden(3, 4))
 	s, ks := verifRows(n)
 	res, err := Rank(s, func(t Tuple) (Tuple, error) {
 		return NewTuple(NewAttr("r", t.MustGet("k"))), nil
@@ -116,10 +116,10 @@ func VerifC06Rank() {
 	}
 }
 
-// verif:bound VerifC06OrderBy relations of 2..4 rows as VerifC06Rank; ordered by k with the value order
+// verif:bound VerifC06OrderBy relations of 2..4 (thorough: 2..5) rows as VerifC06Rank; ordered by k with the value order
 // verif:cover VerifC06OrderBy sorted
 func VerifC06OrderBy() {
-	n := 2 + verifChoice(3)
+	n := 2 + verifChoice(verifWiden(3, 4))
 	s, ks := verifRows(n)
 	out, err := OrderBy(s, func(v Value) (Value, error) { return v.(Tuple).MustGet("k"), nil }, ValueLess)
 	verifAssert("orderby-no-error", err == nil)
